@@ -534,9 +534,37 @@ class Exec:
             es = sizeof(ty.elem)
             return [self.load(addr + i * es, ty.elem) for i in range(ty.n)]
         size = sizeof(ty)
+        if is_sym(addr) and self.concrete is None and isinstance(ty, IntT):
+            v = self.table_load(addr, size)
+            if v is not None:
+                return self.coerce(v, ty)
         o, off = self.resolve(addr, size, "read")
         v = self.load_raw(o, off, size)
         return self.coerce(v, ty)
+
+    def table_load(self, addr, size):
+        """Symbolic-index read from a constant table: an if-then-else chain instead of one path per index."""
+        addr = z3.simplify(addr)
+        if z3.is_bv_value(addr):
+            return None
+        m = self._model()
+        if m is None:
+            return None
+        a0 = m.eval(addr, model_completion=True).as_long()
+        o = self.obj_at(a0)
+        if o is None or not o.ro or not o.alive or o.size < size or o.size > 4096:
+            return None
+        inside = z3.And(z3.ULE(o.base, addr), z3.ULE(addr, o.base + o.size - size), z3.URem(addr - o.base, size) == 0)
+        if self.feasible(z3.Not(inside)):
+            return None
+        r = None
+        for off in range(o.size - size, -1, -size):
+            v = self.load_raw(o, off, size)
+            if not isinstance(v, int):
+                return None
+            t = z3.BitVecVal(v, size * 8)
+            r = t if r is None else z3.If(addr == o.base + off, t, r)
+        return z3.simplify(r)
 
     def coerce(self, v, ty):
         if isinstance(ty, FloatT):
@@ -1277,15 +1305,19 @@ def install_default_hooks(ex):
     def h_memchr(ex, s, c, n):
         n = ex.concretize(n, limit=64)
         c = c & 0xFF if isinstance(c, int) else z3.Extract(7, 0, c)
-        for i in range(n):
-            o, off = ex.resolve(s + i, 1, "read")
-            b = ex.load_raw(o, off, 1)
-            if isinstance(b, int) and isinstance(c, int):
+        if is_sym(s):
+            s = ex.concretize(s)
+        bs = ex.read_bytes(s, n) if n else []
+        if all(isinstance(b, int) for b in bs) and isinstance(c, int):
+            for i, b in enumerate(bs):
                 if b == c:
                     return s + i
-            elif ex.branch(bv(b, 8) == bv(c, 8)):
-                return s + i
-        return 0
+            return 0
+        # symbolic: one value (pointer to the first match or null) instead of one path per position
+        r = z3.BitVecVal(0, 64)
+        for i in range(n - 1, -1, -1):
+            r = z3.If(bv(bs[i], 8) == bv(c, 8), z3.BitVecVal(s + i, 64), r)
+        return z3.simplify(r)
 
     H.update({"malloc": h_malloc, "free": h_free, "realloc": h_realloc,
               "llvm.memcpy.p0i8.p0i8.i64": h_memcpy, "llvm.memmove.p0i8.p0i8.i64": h_memmove,
